@@ -7,7 +7,7 @@
 (*              independent reader (C10), decoded again and re-encoded     *)
 (*              (C09)                                                      *)
 (***************************************************************************)
-EXTENDS PsaWire, TraceLib
+EXTENDS PsaJson, TraceLib
 VARIABLES l, bad, kf
 tvars == <<l, bad, kf>>
 
@@ -112,6 +112,14 @@ DecodeJSONOK(e) ==
                               /\ ObsRet(e.get["profile"]) = RetOK(Prof(d.e.canon)))
           /\ (e.dec.ok /\ ~Valid(e.dec.obj) => ~e.val.ok)
           /\ (e.dec.ok /\ Valid(e.dec.obj) => e.val.ok)
+          \* ... and value for value what PsaJson!DecodeDoc makes of the document (built-in profiles; the extension
+          \* profile X2 = profile-2 rules unless its own member is there; case-variant member names: no verdict)
+          /\ LET x == DecodeDoc(d.e.p, d.e.canon, e.doc)
+                 skip == e.foldAlias \/ d.e.impl \notin {"P1", "P2", "X2"} \/ (d.e.impl = "X2" /\ "timestamp" \in Members(e.doc)) IN
+             skip \/ x.r = "open" \/
+             /\ (x.r = "ok" /\ Valid(x.o) => e.val.ok /\ e.val.obj = x.o)
+             /\ (x.r = "err" \/ ~Valid(x.o) => ~e.val.ok)
+             /\ (e.dec.ok /\ x.r = "ok" => e.dec.obj = x.o /\ ReadsOK(x.o, e))
 MatchT(tol, e) ==
   CASE e.op = "SignRT" -> SignRTOK(e)
     [] e.op = "DecodeJSON" -> DecodeJSONOK(e)
